@@ -671,11 +671,11 @@ class Interp:
         if isinstance(st, ast.Pass):
             return None
         if isinstance(st, (ast.FunctionDef, ast.AsyncFunctionDef)):
-            qn = (self.call_stack[-1] + "." if self.call_stack else "") + st.name
+            qn = (self.call_stack[-1] + ".<locals>." if self.call_stack else "") + st.name
             env.vars[st.name] = self.make_func(st, mi, env, qn)
             return None
         if isinstance(st, ast.ClassDef):
-            qn = (self.call_stack[-1] + "." if self.call_stack else "") + st.name
+            qn = (self.call_stack[-1] + ".<locals>." if self.call_stack else "") + st.name
             env.vars[st.name] = ClassV(st, mi, qn, env)
             return None
         if isinstance(st, ast.For):
